@@ -241,7 +241,10 @@ class Rewriter:
         s, e = tl[i][0], tl[j - 1][1]
         fn = self.fresh('zinc') + '.kbd'
         self.files[fn] = b[s:e].decode()
-        return (b[:s] + b'(include ' + fn.encode() + b')' + b[e:]).decode(), 'include'
+        # the file name written bare, quoted, or as a raw string
+        style = self.rng.choice(['bare', 'bare', 'quoted', 'raw'])
+        name = {'bare': fn, 'quoted': '"%s"' % fn, 'raw': 'r#"%s"#' % fn}[style]
+        return (b[:s] + b'(include ' + name.encode() + b')' + b[e:]).decode(), 'include-' + style
 
     # ---- platform
     def platform(self, text):
